@@ -848,6 +848,7 @@ func (t *Typechecker) VisitReturnStmt(stmt *ast.ReturnStmt) ast.VisitResult {
 	var returnType ddptypes.Type = ddptypes.VoidType{}
 	if stmt.Value != nil {
 		returnType = t.Evaluate(stmt.Value)
+		stmt.ValueType = returnType
 	}
 	if stmt.Func == nil {
 		return ast.VisitRecurse
